@@ -14,6 +14,7 @@ import (
 	"strconv"
 	"strings"
 	gosync "sync"
+	"time"
 
 	"verif/internal/core"
 	"verif/internal/netrun"
@@ -303,7 +304,8 @@ func explore(sc scenario, bound, maxExec int) result {
 			})
 		}
 	}
-	ex := &vsched.Explorer{Bound: bound, MaxSteps: 10000, MaxExec: maxExec}
+	ex := &vsched.Explorer{Bound: bound, MaxSteps: 10000, MaxExec: maxExec, Deadline: time.Now().Add(40 * time.Minute)}
+	stuck := 0
 	var lastKey string
 	allDelivered := !sc.NoCompletion || len(deliveredSet(sc)) == len(r.tr.msgs)
 	ex.Body = func() {
@@ -321,10 +323,14 @@ func explore(sc scenario, bound, maxExec int) result {
 		}
 		if s.Aborted != "" {
 			addV("infrastructure/"+s.Aborted, s.Aborted, x)
+			ex.Stop = true
 			return
 		}
 		if s.Deadlock {
 			addV("deadlock", "no enabled goroutine: "+s.Trace[len(s.Trace)-1], x)
+			if stuck++; stuck >= 3 { // the goroutines of a deadlocked execution stay parked: a few counterexamples are enough
+				ex.Stop = true
+			}
 			return
 		}
 		for _, v := range s.Violations {
